@@ -228,6 +228,8 @@ def case_purity(rep):
             "tt.ogden_roxburgh": (fem.Hyperelastic(fem.ogden_roxburgh, material=fem.neo_hooke, mu=1.0, r=3.0, m=1.0, beta=0.1, nstatevars=1), np.zeros((1,) + batch), 0.25),
             "tt.finite_strain_viscoelastic": (fem.Hyperelastic(fem.finite_strain_viscoelastic, mu=1.0, eta=1.0, dtime=0.5, nstatevars=6), None, 0.25),
             "Plasticity": (fem.LinearElasticPlasticIsotropicHardening(E=100.0, nu=0.3, sy=1.0, K=10.0), None, 0.03),
+            # the small-strain framework's linear-elastic law (rate form: the state carries the old strain and the old stress)
+            "MaterialStrain(linear_elastic)": (fem.MaterialStrain(material=fem.linear_elastic, λ=60.0, μ=40.0), None, 0.03),
         }
         for name, (um, sv, amp) in models.items():
             if sv is None:
@@ -558,7 +560,7 @@ SPEC = {
                        "or:running-max:tensortrax", "or:primary:hand", "or:primary:tensortrax", "or:reload:hand", "or:reload:tensortrax",
                        "plasticity:yield", "plasticity:monotone", "plasticity:plastic-steps", "trace:state-carries-ramp-value", "trace:generate-with-distinct-x0", "trace:results=ramp-values", "trace:job-x0-distinct",
                        "fe-history:plasticity", "fe-history:ni-ogden-roxburgh", "fe-history:failure:plasticity", "load-path:pointload-axi", "load-path:pressure", "load-path:force", "load-path:pointload", "load-path:pointload-apply-on",
-                       "purity:committed-state-untouched:OgdenRoxburgh", "purity:committed-state-untouched:Plasticity", "purity:repeatable:tt.finite_strain_viscoelastic"],
+                       "purity:committed-state-untouched:OgdenRoxburgh", "purity:committed-state-untouched:Plasticity", "purity:committed-state-untouched:MaterialStrain(linear_elastic)", "purity:repeatable:tt.finite_strain_viscoelastic"],
     "rule": ("random load histories on small solids (hex8, tet4, quad4/8 plane strain, axisymmetric, nearly-incompressible, mixed): 1..3 "
              "steps of 1..5 substeps, monotone/cyclic/repeated/random ramps of 1..3 items (boundary, pressure, point load, body force), "
              "jobs with x0 and callbacks, an infeasible substep injected at a random position in every third history; the recorded "
